@@ -82,6 +82,12 @@ func alignFrac(lo, hi float64) {
 }
 
 func runC05(ctx *Ctx) {
+	// a signature is bound to its nonce: presented with a neighbouring nonce it is refused
+	for k := 0; k < 2; k++ {
+		if ctx.Want(700000 + k) {
+			c06Unfamiliar(ctx, 700000+k, k)
+		}
+	}
 	E := int64(store.ExpireNonce)
 	idx := 0
 	var wg sync.WaitGroup
